@@ -193,8 +193,10 @@ def traceStr (o : ReqOut) : String :=
 def parseLoc : String → Option Loc
   | "client" => some .client | "server" => some .server | "both" => some .both | _ => none
 
+/-- `network` = `session_tcp_storage` → `tcp_cache_service` → memory storage: the session opcodes carry
+(sid, 64-bit deadline, data) verbatim, so behind the interface it is the memory storage -/
 def parseKind : String → Option Kind
-  | "memory" => some .memory | "files" => some .files | _ => none
+  | "memory" => some .memory | "files" => some .files | "network" => some .memory | _ => none
 
 def emptyWorld (cfg : Cfg) : World := ⟨cfg, ⟨[], []⟩, 0, [], []⟩
 
